@@ -174,18 +174,27 @@ type listener struct {
 	option   []transport.Option
 	options  *transport.Options
 	acceptor transport.Acceptor
+	closed   bool       // Close has been called (possibly before Sync created the acceptor)
+	mutex    sync.Mutex // guards options, acceptor and closed
 }
 
 // Acceptor returned the acceptor
 func (l *listener) Acceptor() transport.Acceptor {
+	l.mutex.Lock()
+	defer l.mutex.Unlock()
 	return l.acceptor
 }
 
 // Close listener
 func (l *listener) Close() error {
 	l.bs.removeListener(l.url)
-	if l.acceptor != nil {
-		return l.acceptor.Close()
+	// remember the close: a Sync that has not created its acceptor yet must not start accepting
+	l.mutex.Lock()
+	l.closed = true
+	acceptor := l.acceptor
+	l.mutex.Unlock()
+	if acceptor != nil {
+		return acceptor.Close()
 	}
 	return nil
 }
@@ -193,22 +202,14 @@ func (l *listener) Close() error {
 // Sync accept new transport from listener
 func (l *listener) Sync() error {
 
-	if nil != l.acceptor {
-		return fmt.Errorf("duplicate call Listener:Sync")
-	}
-
-	var err error
-	if l.options, err = transport.ParseOptions(l.bs.Context(), l.url, l.option...); nil != err {
-		return err
-	}
-
-	if l.acceptor, err = l.bs.transportFactory.Listen(l.options); nil != err {
+	acceptor, err := l.listen()
+	if nil != err {
 		return err
 	}
 
 	for {
 		// accept the transport
-		t, err := l.acceptor.Accept()
+		t, err := acceptor.Accept()
 		if nil != err {
 			select {
 			case <-l.options.Context.Done():
@@ -220,6 +221,32 @@ func (l *listener) Sync() error {
 
 		l.bs.ServeChannel(l.options.Context, t, l.options.Attachment, true)
 	}
+}
+
+// listen creates the acceptor unless the listener was closed or the bootstrap
+// was shut down in the meantime (Close and Shutdown may run before Sync starts).
+func (l *listener) listen() (transport.Acceptor, error) {
+	l.mutex.Lock()
+	defer l.mutex.Unlock()
+
+	if nil != l.acceptor {
+		return nil, fmt.Errorf("duplicate call Listener:Sync")
+	}
+
+	if l.closed || nil != l.bs.Context().Err() {
+		return nil, ErrServerClosed
+	}
+
+	var err error
+	if l.options, err = transport.ParseOptions(l.bs.Context(), l.url, l.option...); nil != err {
+		return nil, err
+	}
+
+	if l.acceptor, err = l.bs.transportFactory.Listen(l.options); nil != err {
+		l.acceptor = nil
+		return nil, err
+	}
+	return l.acceptor, nil
 }
 
 // Async accept new transport from listener
